@@ -266,6 +266,11 @@ const NOISE: &[&str] = &[
     "    12 bogusY() -> b",
     "    7 int f -> m",
     "    5:void z() -> a",
+    // a field line with a `start:end:` prefix is still a field record
+    "    1:1:int counter -> a",
+    "    3:4:int[] f -> b",
+    "    0:0:o.T g -> c",
+    "    1:1:int counter:5:6 -> a",
 ];
 
 fn source_file_line(rng: &mut Rng, cfg: &Cfg) -> String {
@@ -582,6 +587,15 @@ pub fn mutate(rng: &mut Rng, text: &[u8]) -> Vec<u8> {
             continue;
         }
         let pos = rng.below(t.len());
+        if rng.pct(8) {
+            // a lone non-ASCII byte next to a digit: `(b as char).is_numeric()` holds for the Latin-1
+            // code points ² ³ ¹ ¼ ½ ¾, which as lone bytes are invalid UTF-8
+            if let Some(i) = (pos..t.len()).find(|&i| t[i].is_ascii_digit()) {
+                let b = rng.pick(&[0xB2u8, 0xB3, 0xB9, 0xBC, 0xBD, 0xBE, 0xB1, 0xFF, 0x80, 0xC2, 0xAA]);
+                t.insert(if rng.pct(50) { i } else { i + 1 }, b);
+                continue;
+            }
+        }
         if rng.pct(25) {
             // a random printable ASCII byte (often right before a line end)
             let c = 33 + rng.below(94) as u8;
